@@ -1,4 +1,5 @@
 import Sm9.Driver.Text
+import Sm9.Model.Prog
 /-!
 # Register-machine programs and law checks of the line protocol (C01, C03, C07, C11, C16)
 
@@ -85,74 +86,33 @@ def runFieldProg {α} (M : FieldOpsM α) (isFr : Bool) (steps : List String) : O
 
 /-! ## group programs -/
 
-inductive Reg where
-  | p1 (p : G1)
-  | p2 (p : G2)
-
-def encDec1 (fmt : String) (p : G1) : Option G1 :=
-  if p.is_zero then some p else
-  match fmt with
-  | "slice" => match Api.g1ToSlice p with
-    | .ok b => (Api.g1FromSlice b).toOption | .panic => none
-  | "uncompressed" => match Api.g1ToUncompressed p with
-    | .ok b => (Api.g1FromUncompressed b).toOption | .panic => none
-  | _ => match Api.g1ToCompressed p with
-    | .ok b => (Api.g1FromCompressed b).toOption | .panic => none
-def encDec2 (fmt : String) (p : G2) : Option G2 :=
-  if p.is_zero then some p else
-  match fmt with
-  | "slice" => match Api.g2ToSlice p with
-    | .ok b => (Api.g2FromSlice b).toOption | .panic => none
-  | "uncompressed" => match Api.g2ToUncompressed p with
-    | .ok b => (Api.g2FromUncompressed b).toOption | .panic => none
-  | _ => match Api.g2ToCompressed p with
-    | .ok b => (Api.g2FromCompressed b).toOption | .panic => none
-
-def affRound {F} [FieldElement F] (p : G F) : G F :=
-  match p.to_affine with
-  | some a => a.to_jacobian
-  | none => p
-
-def groupStep (regs : Array Reg) (step : String) : Option (Array Reg) :=
+/-- text of one step → instruction of the model's mixed machine (`Sm9.MInstr`, Model/Prog.lean);
+    any format name other than `slice` / `uncompressed` selects the compressed format -/
+def parseInstr (step : String) : Option MInstr :=
   let (k, as) := splitArgs step
-  let reg (s : String) : Option Reg := s.toNat?.bind (fun i => regs[i]?)
   match k, as with
-  | "one1", [] => some (regs.push (.p1 G.one))
-  | "one2", [] => some (regs.push (.p2 G.one))
-  | "zero1", [] => some (regs.push (.p1 G.zero))
-  | "zero2", [] => some (regs.push (.p2 G.zero))
-  | "add", [i, j] => do
-      match (← reg i), (← reg j) with
-      | .p1 a, .p1 b => pure (regs.push (.p1 (a.add b)))
-      | .p2 a, .p2 b => pure (regs.push (.p2 (a.add b)))
-      | _, _ => none
-  | "sub", [i, j] => do
-      match (← reg i), (← reg j) with
-      | .p1 a, .p1 b => pure (regs.push (.p1 (a.sub b)))
-      | .p2 a, .p2 b => pure (regs.push (.p2 (a.sub b)))
-      | _, _ => none
-  | "neg", [i] => do
-      match (← reg i) with
-      | .p1 a => pure (regs.push (.p1 a.neg))
-      | .p2 a => pure (regs.push (.p2 a.neg))
-  | "mul", [i, ks] => do
-      let kk ← pFr ks
-      match (← reg i) with
-      | .p1 a => pure (regs.push (.p1 (a.mul kk)))
-      | .p2 a => pure (regs.push (.p2 (a.mul kk)))
-  | "normalize", [i] => do
-      match (← reg i) with
-      | .p1 a => pure (regs.push (.p1 (Api.normalize a)))
-      | .p2 a => pure (regs.push (.p2 (Api.normalize a)))
-  | "affine", [i] => do
-      match (← reg i) with
-      | .p1 a => pure (regs.push (.p1 (affRound a)))
-      | .p2 a => pure (regs.push (.p2 (affRound a)))
+  | "one1", [] => some .one1
+  | "one2", [] => some .one2
+  | "zero1", [] => some .zero1
+  | "zero2", [] => some .zero2
+  | "add", [i, j] => do pure (.add (← i.toNat?) (← j.toNat?))
+  | "sub", [i, j] => do pure (.sub (← i.toNat?) (← j.toNat?))
+  | "neg", [i] => do pure (.neg (← i.toNat?))
+  | "mul", [i, ks] => do let kk ← pFr ks; pure (.mul (← i.toNat?) kk)
+  | "normalize", [i] => do pure (.normalize (← i.toNat?))
+  | "affine", [i] => do pure (.affine (← i.toNat?))
   | "encdec", [i, fmt] => do
-      match (← reg i) with
-      | .p1 a => do let b ← encDec1 fmt a; pure (regs.push (.p1 b))
-      | .p2 a => do let b ← encDec2 fmt a; pure (regs.push (.p2 b))
+      let f : Fmt := match fmt with
+        | "slice" => .slice
+        | "uncompressed" => .uncompressed
+        | _ => .compressed
+      pure (.encdec (← i.toNat?) f)
   | _, _ => none
+
+/-- a thin parser in front of the model's `mstep` -/
+def groupStep (regs : List Reg) (step : String) : Option (List Reg) := do
+  let ins ← parseInstr step
+  mstep regs ins
 
 def regJac : Reg → String
   | .p1 p => sG1 p
@@ -160,19 +120,12 @@ def regJac : Reg → String
 def regAff : Reg → String
   | .p1 p => affG1 p
   | .p2 p => affG2 p
-def regEq : Reg → Reg → String
-  | .p1 a, .p1 b => if a.eq b then "1" else "0"
-  | .p2 a, .p2 b => if a.eq b then "1" else "0"
-  | _, _ => "-"
-def regZero : Reg → String
-  | .p1 p => if p.is_zero then "1" else "0"
-  | .p2 p => if p.is_zero then "1" else "0"
-
-def lastOf (regs : List Reg) : Option G1 × Option G2 :=
-  regs.foldl (fun (acc : Option G1 × Option G2) rg =>
-    match rg with
-    | .p1 p => (some p, acc.2)
-    | .p2 p => (acc.1, some p)) (none, none)
+def regEq (a b : Reg) : String :=
+  match a.eqObs b with
+  | some true => "1"
+  | some false => "0"
+  | none => "-"
+def regZero (p : Reg) : String := if p.isZero then "1" else "0"
 
 def threePairings (p : G1) (q : G2) : String :=
   let a := sOut sFq12 (Api.pairing p q)
@@ -181,8 +134,9 @@ def threePairings (p : G1) (q : G2) : String :=
   a ++ "," ++ b ++ "," ++ c
 
 def runGroupProgModel (steps : List String) : Option String := do
-  let regs ← steps.foldlM groupStep #[]
-  let l := regs.toList
+  -- parse, then run the model's machine (`mrun`: `mstep` from the empty register file; the fold of `groupStep`)
+  let prog ← steps.mapM parseInstr
+  let l ← mrun prog
   let eqm := String.join (l.map fun a => String.join (l.map fun b => regEq a b))
   let zs := String.join (l.map regZero)
   let pr := match lastOf l with
